@@ -233,6 +233,30 @@ def rr_write(text):
     if not m: refuse(W, "fn len not of the form name.len() + rdata.len() + N")
     return {'common': common, 'order': order, 'fixedLen': num(m.group(1))}
 
+def rr_write_compressed(text):
+    """the steps of `ResourceRecord::write_compressed_to`: RDLENGTH is back-patched by seeking"""
+    W = 'resource_record.rs: ResourceRecord::write_compressed_to'
+    impl = block_after(text, r"impl(?:<[^>]*>)? ?WireFormat<[^>]*>for ResourceRecord\b(?:<[^>]*>)?\{", W)
+    sts = statements(fn_body(impl, 'write_compressed_to', W))
+    pats = [('name', r'self\.name\.write_compressed_to\(out,name_refs\)\?;'),
+            ('common', r'self\.write_common\(out\)\?;'),
+            ('mark:len_position', r'let len_position=out\.stream_position\(\)\?;'),
+            ('placeholder', r'out\.write_all\(&\[0,0\]\)\?;'),
+            ('rdata', r'self\.rdata\.write_compressed_to\(out,name_refs\)\?;'),
+            ('mark:end', r'let end=out\.stream_position\(\)\?;'),
+            ('seek:start(len_position)', r'out\.seek\(std::io::SeekFrom::Start\(len_position\)\)\?;'),
+            ('seek:start(end)', r'out\.seek\(std::io::SeekFrom::Start\(end\)\)\?;'),
+            ('seek:end(0)', r'out\.seek\(std::io::SeekFrom::End\(0\)\)\?;'),
+            ('patch:end-len_position-2', r'out\.write_all\(&\(\(end-len_position-2\)as u16\)\.to_be_bytes\(\)\)\?;'),
+            ('patch:rdata.len', r'out\.write_all\(&\(self\.rdata\.len\(\)as u16\)\.to_be_bytes\(\)\)\?;'),
+            ('ok', r'Ok\(\(\)\)')]
+    steps = []
+    for st in sts:
+        k = [k for k, rx in pats if re.match(rx + '$', st)]
+        if not k: refuse(W, f"unrecognised statement: {st[:160]}")
+        if k[0] != 'ok': steps.append(k[0])
+    return steps
+
 def match_tables(text):
     W = 'resource_record.rs: match_qtype / match_qclass'
     body = fn_body(text, 'match_qtype', W)
@@ -408,6 +432,7 @@ def generate(repo):
     rp = attempt('rr.parse', need('rr', rr_parse))
     rw = attempt('rr.write', need('rr', rr_write))
     mt = attempt('rr.match', need('rr', match_tables))
+    rc = attempt('rr.write_compressed', need('rr', rr_write_compressed))
     dp = attempt('rdata.parse', need('m', rdata_parse))
     pp = attempt('packet.parse', need('p', packet_parse))
     pw = attempt('packet.write', need('p', packet_write))
@@ -474,6 +499,8 @@ def generate(repo):
           f"def rrCommonOrder : Option (List String) := " + ('none' if rw is None else f"some {strs(rw['common'])}"),
           f"def rrWriteOrder : Option (List String) := " + ('none' if rw is None else f"some {strs(rw['order'])}"),
           f"def rrFixedLen : Option Nat := {optn(g(rw, 'fixedLen'))}",
+          "/-- the steps of `ResourceRecord::write_compressed_to` (RDLENGTH back-patched through `seek`) -/",
+          "def rrCompressedSteps : Option (List String) := " + ('none' if rc is None else f"some {strs(rc)}"),
           "/-- `match_qtype`: for each special QTYPE `true`, `false`, or the TYPEs it matches (sorted) -/"]
     if mt is None:
         L += ["def matchQType : Option (List (String × List String)) := none", "def matchQClass : Option (List (String × String)) := none"]
